@@ -33,6 +33,26 @@ CHECKS = {
          "Uversky=KD/9; the 11 per-residue tables are regenerated from the live code on every run and proved equal to the frozen "
          "published tables (kernel, all 20 residues); correspondence: 20 residues, 400 pairs, random sequences and permutations.",
          "", "Lean 4 proof over a hand model + regenerated tables (rfl per residue) + differential correspondence"),
+ "C05": ("Lean theorems for all sequences: kappa, delta, delta-max and SCD depend only on the charge pattern (hence same-class "
+         "substitution), are invariant under reversal (blobs of the reverse are the reversed blobs in reverse order; lag sums reflect) and "
+         "under charge inversion (sigma symmetric; the documented delta-max family is closed under inversion: dmaxComp_swap); Omega depends only "
+         "on the P/E/D/K/R class and is reversal/inversion invariant; the charge and Omega classes are regenerated from the live code and "
+         "proved equal to the published ones. Correspondence + metamorphic oracle on the real code: every pattern <= 6/8 and random sequences, "
+         "each with 4 transforms.",
+         "SCD over the reals (Mathlib Real.sqrt); float evaluation compared within 1e-9.",
+         "Lean 4 proof (list reversal / negation lemmas, family bijection) + metamorphic differential testing"),
+ "C06": ("Lean theorems: Omega = kappa of the P/E/D/K/R recoding = kappa_X(PEDKR); kappa = kappa_X(ED,KR); kappa_X depends only on the parsed "
+         "groups as sets (order, repeats, letter case), is invariant under swapping DISJOINT groups and under complementing a single group "
+         "(both via inversion invariance of kappa), rejects exactly groups with a member that is not one of the 20 letters after upper-casing; "
+         "Omega sequence has X exactly at P/E/D/K/R. Correspondence + relations on the real API with random groups incl. malformed ones.",
+         "Overlapping groups: the first group wins and the swap is not an inversion; outside the quantifier (partitions), checked as model correspondence only. Non-ASCII member strings are not modelled.",
+         "Lean 4 proof (set-extensional recoding + kappa_negate) + relation-based differential testing"),
+ "C07": ("Lean theorems over the reals for every pattern: the code's double loop equals the Sawle-Ghosh pair sum (1/N) sum_{m>n} q_m q_n sqrt(m-n), "
+         "which equals (1/N) sum_d lag_d sqrt(d) with the executable model's exact integer lag sums (pair sum regrouped by distance via a "
+         "sigma-type bijection); SCD = 0 with fewer than two charges; pattern-only; reversal and inversion invariance. Correspondence: "
+         "get_SCD vs that lag form on every pattern <= 7/10 and random sequences to 300.",
+         "Real.sqrt vs float sqrt: compared within 1e-9; the harness takes the square roots (math.sqrt, fsum).",
+         "Lean 4 proof over R (Finset sum reindexing) + differential correspondence through exact integer lag sums"),
  "C08": ("Lean theorems: for every sequence (every (n+,n-,N)) the region cascade never reaches a raise and returns exactly the region of "
          "the exact rational thresholds; range 1..5; 4/5 decided by strict majority; depends only on the counts. Correspondence: every "
          "triple with N<=40 (quick) / 120 (thorough) realised as a sequence, plus boundary compositions up to N=1000.",
